@@ -202,3 +202,17 @@ package memory
 //@   option nosafety
 //@   ensures @stored err == nil && inDom(s.authorizationModels, store) && inDom(s.authorizationModels[store], old(model.GetId())) && s.authorizationModels[store][old(model.GetId())].model == model && s.authorizationModels[store][old(model.GetId())].latest
 //@   ensures @otherStores forall k string :: k != store ==> (inDom(s.authorizationModels, k) <==> old(inDom(s.authorizationModels, k))) && s.authorizationModels[k] == old(s.authorizationModels[k])
+
+// ReadStartingWithUser (soundness of the type / relation / condition-name filters): every record handed back has the
+// requested object type and relation and satisfies the condition-name filter ("" stands for unconditioned tuples: an
+// unconditioned tuple passes only if "" is listed)
+//@ spec rswuBasic(r ref, f S_storage.ReadStartingWithUserFilter) bool = r.ObjectType == f.ObjectType && r.Relation == f.Relation && conditionMatches(r, f.Conditions)
+//@ func (*MemoryBackend).ReadStartingWithUser(s, ctx, store, filter, options) (it, err)
+//@   property C13
+//@   option nosafety
+//@   option defer_neutral
+//@   loop 0 invariant forall j int :: 0 <= j && j < len(matches) ==> rswuBasic(matches[j], filter)
+//@   loop 1 invariant forall j int :: 0 <= j && j < len(matches) ==> rswuBasic(matches[j], filter)
+//@   loop 1 invariant rswuBasic(t, filter)
+//@   monitor sorted
+//@     before call sort.Slice args x, less : assert typeIs(x, "[]*storage.TupleRecord") && forall j int :: 0 <= j && j < len(as(x, "[]*storage.TupleRecord")) ==> rswuBasic(as(x, "[]*storage.TupleRecord")[j], filter)
